@@ -471,6 +471,23 @@ impl<'a> ReMatcher<'a> {
             .set_paren_end(group_nr, position)
     }
 
+    // the capture state together with the back-reference state
+    pub(crate) fn group_state(&self) -> GroupState {
+        let state = self.state.borrow();
+        GroupState {
+            capture_state: state.capture_state.clone(),
+            start_backref: state.start_backref.clone(),
+            end_backref: state.end_backref.clone(),
+        }
+    }
+
+    pub(crate) fn reset_group_state(&self, saved: GroupState) {
+        let mut state = self.state.borrow_mut();
+        state.capture_state = saved.capture_state;
+        state.start_backref = saved.start_backref;
+        state.end_backref = saved.end_backref;
+    }
+
     pub(crate) fn restore_paren(&self, group_nr: usize, start: Option<usize>, end: Option<usize>) {
         let mut state = self.state.borrow_mut();
         if group_nr < state.capture_state.startn.len() {
@@ -519,6 +536,13 @@ impl<'a> ReMatcher<'a> {
     pub(crate) fn reset_state(&self, capture_state: CaptureState) {
         self.state.borrow_mut().capture_state = capture_state;
     }
+}
+
+#[derive(Debug, Clone)]
+pub(crate) struct GroupState {
+    capture_state: CaptureState,
+    start_backref: Vec<Option<usize>>,
+    end_backref: Vec<Option<usize>>,
 }
 
 #[derive(Debug, Clone)]
